@@ -10,7 +10,8 @@
 (*           console: the terminal commands are stepped through the RefTerm *)
 (*           oracle and at "paint" the reference screen must conform to     *)
 (*           Surface!Want(tree) (Surface!ScreenConforms).                   *)
-(* A panic anywhere is a rejection.                                         *)
+(* A panic anywhere is a rejection, and so is a Draw that does not return   *)
+(* (LayoutRel!Returns).                                                     *)
 EXTENDS RefTerm, TLC, Json, IOUtils
 
 S == INSTANCE Surface
@@ -53,7 +54,8 @@ Why(e, tt) ==
          [] e.ev = "write"    -> IF ToSet(e.changed) = S!WriteEffect(e.w, e.h, e.c, e.r) THEN ""
                                  ELSE IF S!Inside(e.w, e.h, e.c, e.r) THEN "wrong-cell" ELSE "not-ignored"
          [] e.ev = "addchild" -> IF S!AddChildOK(e.before, e.col, e.row, e.after, e.ox, e.oy) THEN "" ELSE "origin"
-         [] e.ev = "draw"     -> IF ~L!SizeOK(e.root.w, e.root.h, e.maxw, e.maxh) THEN "larger-than-max"
+         [] e.ev = "draw"     -> IF ~L!Returns(e) THEN "does-not-return"
+                                 ELSE IF ~L!SizeOK(e.root.w, e.root.h, e.maxw, e.maxh) THEN "larger-than-max"
                                  ELSE IF ~L!ProbesOK(e.probes) THEN "child-larger-than-max"
                                  ELSE IF ~L!TreeOK(e.root) THEN "not-centred"
                                  ELSE ""
